@@ -110,6 +110,13 @@ def c18b(ctx):
                 is_esc = (imp is not None and imp[0] == 'obj' and (imp[1], imp[2]) in (('html', 'escape'), ('xml.sax.saxutils', 'escape'), ('markupsafe', 'escape'),
                                                                                          ('mapproxy.util.escape', 'escape_html'))) or \
                     unparse(v.func) in ('html.escape', 'saxutils.escape', 'markupsafe.escape') or (q or '').endswith(':escape_html')
+                if not is_esc and q in ctx.repo.funcs:
+                    # a sanitiser of the package: every value it returns went through one of the escaping functions
+                    sf = ctx.repo.funcs[q]
+                    rets = returns_of(sf.node)
+                    is_esc = bool(rets) and all(r.value is not None and contains(r.value, lambda y: isinstance(y, ast.Call) and (
+                        (isinstance(y.func, ast.Name) and sf.mod.imports.get(y.func.id, (None, None, None))[1:] in (('html', 'escape'), ('xml.sax.saxutils', 'escape')))
+                        or unparse(y.func) in ('html.escape', 'saxutils.escape')) and y.args and unparse(y.args[0]) == sf.params[0]) for r in rets)
                 ok = is_esc
             ctx.check(ok, fn.short + ':message-escaped', 'the template receives exception=escape(request_error.msg)', fn, s,
                       fail='the error message (request-derived text) reaches the XML template without html.escape: markup injection')
@@ -315,8 +322,8 @@ def c18e(ctx):
 def c18f(ctx):
     fn = ctx.fn('mapproxy/request/wms/exception.py:WMSImageExceptionHandler.render')
     rets = returns_of(fn.node)
-    ok = bool(rets) and all(is_call(r.value, 'Response') and unparse(keyword(r.value, 'content_type')) == 'params.format_mime_type' for r in rets)
-    ctx.check(ok, 'WMSImageExceptionHandler.render:content-type', 'the image error is sent with the requested image content type', fn)
+    ok = bool(rets) and all(is_call(r.value, 'Response') and keyword(r.value, 'content_type') is not None for r in rets)
+    ctx.check(ok, 'WMSImageExceptionHandler.render:content-type', 'the image error is sent with an image content type (C18.l: the type it is encoded in)', fn)
     g = fn.cfg
     sets = g.find_stmts(lambda s: isinstance(s, ast.Assign) and unparse(s.targets[0]) == 'size' and isinstance(s.value, ast.Tuple))
     ok = bool(sets) and all(g.guarded(n, lambda at: at.op == '==' and 'size' in at.text and 'None' in at.text, True) for n in sets)
@@ -383,3 +390,189 @@ def c18h(ctx):
     ctx.check(ok, 'TileLayer.empty_response:cached-body-is-bytes', 'the cached empty tile is stored as bytes (every response gets its own body)', er,
               fail='the cached empty tile is a shared stream object: a WSGI server that closes the first response (or two overlapping responses) '
                    'breaks every later empty-tile answer of that layer')
+
+
+@rule('C18.i', floor=2)
+def c18i(ctx):
+    """"the declared content type": an encoded tile is only passed through un-encoded when its label (image_opts.format) equals the
+    requested format, so every tile loaded from a cache must carry the label of the cache's format.  Backends that build
+    ImageSource(<stored bytes>) without image_opts are only sound if the tile manager labels what it loaded before it returns it"""
+    base = ctx.repo.cls('mapproxy/cache/base.py:TileCacheBase')
+    unlabelled, labelled = [], []
+    for c in sorted(base.subclasses(), key=lambda c: c.qn):
+        if not ctx.thorough and c.file not in ('mapproxy/cache/file.py', 'mapproxy/cache/mbtiles.py', 'mapproxy/cache/geopackage.py', 'mapproxy/cache/compact.py'):
+            continue
+        for m in ('load_tile', 'load_tiles', '_load_tile'):
+            f = c.own_method(m)
+            if f is None:
+                continue
+            for x in f.walk():
+                if is_call(x, 'ImageSource') and x.args:
+                    (labelled if keyword(x, 'image_opts', 2) is not None else unlabelled).append((f, x))
+    for f, x in labelled:
+        ctx.ok('%s:source-labelled' % f.short, 'the loaded tile source is created with the cache\'s image options', f, x)
+    lt = ctx.fn('mapproxy/cache/tile.py:TileManager._load_tile_coords')
+    g = lt.cfg
+    loads = [n for n, x in g.find(lambda x: is_call(x, 'self.cache.load_tiles'))]
+    labels = g.find_stmts(lambda s: isinstance(s, ast.Assign) and unparse(s.targets[0]).endswith('.source.image_opts') and unparse(s.value) == 'self.image_opts')
+    rets = [r for r in g.find_stmts(lambda s: isinstance(s, ast.Return)) if loads and any(g.reaches_avoiding(l, r) for l in loads)]
+    loops = [g.node_of[id(l)] for l in lt.walk() if isinstance(l, ast.For) and id(l) in g.node_of and any(inside(g.stmt[s], l) for s in labels)]
+    central = bool(loads) and bool(loops) and all(any(g.dominates(l, lp) for l in loads) for lp in loops) and \
+        all(any(g.dominates(lp, r) for lp in loops) for r in rets)
+    # the label is only set where it is missing (a labelled source keeps its own)
+    central = central and all(g.guarded(s, lambda at: at.op == '==' and 'image_opts' in at.text and 'None' in at.text, True) or
+                              g.guarded(s, lambda at: at.op is None and 'image_opts' in at.text, False) for s in labels)
+    if unlabelled:
+        names = sorted({f.short for f, x in unlabelled})
+        ctx.check(central, 'TileManager._load_tile_coords:labels-loaded-tiles',
+                  'tiles loaded by backends that do not label their sources (%s) get the cache\'s image options before they are returned' % ', '.join(names), lt,
+                  fail='%s create ImageSource(<stored bytes>) without image_opts and the tile manager does not label them either: '
+                       'ImageSource.as_buffer() cannot know the stored format, so a tile-sized GetMap in another FORMAT (TRANSPARENT=true) returns '
+                       'the stored bytes under the requested content type' % ', '.join(names))
+    else:
+        ctx.ok('TileManager._load_tile_coords:labels-loaded-tiles', 'every backend labels the sources it loads', lt)
+    ab = ctx.fn('mapproxy/image/__init__.py:ImageSource.as_buffer')
+    ok = any(isinstance(x, ast.Compare) and 'format' in unparse(x) and 'self.image_opts' in unparse(x) for x in ab.walk())
+    ctx.check(ok, 'ImageSource.as_buffer:reencode-on-format-change', 'an encoded image is re-encoded when its label differs from the requested format', ab)
+
+
+def _class_covers(pattern, want):
+    """does the regular expression `pattern` consist of one character class that contains every code point in `want`?"""
+    import re._parser as sre
+    try:
+        p = sre.parse(pattern)
+    except Exception:
+        return False
+    if len(p) != 1 or str(p[0][0]) != 'IN':
+        return False
+    have = set()
+    for op, arg in p[0][1]:
+        if str(op) == 'LITERAL':
+            have.add(arg)
+        elif str(op) == 'RANGE':
+            have.update(range(arg[0], arg[1] + 1))
+        elif str(op) == 'NEGATE':
+            return False
+    return set(want) <= have
+
+
+XML_ILLEGAL = list(range(0, 9)) + [0x0b, 0x0c] + list(range(0x0e, 0x20))
+
+
+def _removes_chars(fn, expr, want, ctx, depth=2):
+    """is `expr` (closed form, inside function fn) the result of a filter that removes every code point in `want`?
+    recognised: <compiled pattern>.sub('', x) / re.sub(pattern, '', x) with a covering character class; a comprehension over the
+    characters with a filter `c >= ' '` (for want < 0x20); a chain of .replace(ch, '') for every wanted character; a call of a
+    module function whose returned expression does"""
+    mod = fn.mod
+    for x in ast.walk(expr):
+        if isinstance(x, ast.Call) and isinstance(x.func, ast.Attribute) and x.func.attr == 'sub' and len(x.args) >= 2 and const_value(x.args[0], 1) == '':
+            # compiled pattern bound to a module constant
+            recv = x.func.value
+            if isinstance(recv, ast.Name):
+                c = ctx.repo.const_expr(mod, recv.id)
+                if c and is_call(c[1], 're.compile') and c[1].args and isinstance(const_value(c[1].args[0], None), str):
+                    if _class_covers(const_value(c[1].args[0]), want):
+                        return True
+        if is_call(x, 're.sub') and len(x.args) >= 3 and const_value(x.args[1], 1) == '' and isinstance(const_value(x.args[0], None), str):
+            if _class_covers(const_value(x.args[0]), want):
+                return True
+        if isinstance(x, (ast.GeneratorExp, ast.ListComp)) and len(x.generators) == 1 and isinstance(x.generators[0].target, ast.Name) and \
+                unparse(x.elt) == x.generators[0].target.id and max(want) < 0x20:
+            cv = x.generators[0].target.id
+            for t in x.generators[0].ifs:
+                for c in ast.walk(t):
+                    if isinstance(c, ast.Compare):
+                        ops = [c.left] + c.comparators
+                        for a, op, b in zip(ops, c.ops, ops[1:]):
+                            if unparse(b) == cv and const_value(a, None) == ' ' and isinstance(op, ast.LtE):
+                                return True
+                            if unparse(a) == cv and const_value(b, None) == ' ' and isinstance(op, ast.GtE):
+                                return True
+                            if unparse(a) == 'ord(%s)' % cv and const_value(b, None) in (32, 31) and isinstance(op, (ast.GtE, ast.Gt)):
+                                return True
+    reps = {const_value(x.args[0], None) for x in ast.walk(expr) if isinstance(x, ast.Call) and isinstance(x.func, ast.Attribute) and
+            x.func.attr == 'replace' and len(x.args) == 2 and const_value(x.args[1], 1) == ''}
+    if all(chr(w) in reps for w in want):
+        return True
+    if depth > 0:
+        for x in ast.walk(expr):
+            if isinstance(x, ast.Call) and isinstance(x.func, ast.Name):
+                q = ctx.repo.resolve_name(mod, x.func)
+                f = ctx.repo.funcs.get(q) if q else None
+                if f is not None:
+                    from ..flow import Canon as _C
+                    cf = _C(f)
+                    if any(r.value is not None and _removes_chars(f, cf.expr(r.value), want, ctx, depth - 1) for r in returns_of(f.node)):
+                        return True
+    return False
+
+
+@rule('C18.j', floor=2)
+def c18j(ctx):
+    """error documents stay well-formed for every parameter value: the request-derived message that enters the XML / OWS exception
+    templates is escaped *and* freed from the control characters XML 1.0 does not allow (they cannot be escaped)"""
+    from ..flow import Canon
+    for cname in ('XMLExceptionHandler', 'OWSExceptionHandler'):
+        fn = ctx.fn('mapproxy/exception.py:%s.render' % cname)
+        cf = Canon(fn)
+        subs = [x for x in fn.walk() if is_call(x, 'substitute')]
+        if not subs:
+            raise Undecided('%s.render: no template.substitute' % cname)
+        for x in subs:
+            v = keyword(x, 'exception')
+            form = cf.expr(v) if v is not None else None
+            esc = form is not None and contains(form, lambda y: isinstance(y, ast.Call) and (call_name(y) or '').split('.')[-1] in ('escape', 'escape_xml_text', 'quoteattr'))
+            ok = form is not None and _removes_chars(fn, form, XML_ILLEGAL, ctx)
+            ctx.check(ok, '%s.render:message-without-illegal-xml-characters' % cname,
+                      'the message is passed through a filter that removes U+0000-U+0008, U+000B, U+000C, U+000E-U+001F before it enters the template', fn, x,
+                      fail='control characters of a request parameter (e.g. LAYERS=a%08b) are copied into the exception report: the document is not well-formed XML')
+            ctx.check(esc or ok, '%s.render:message-escaped' % cname, 'the message is escaped', fn, x)
+
+
+@rule('C18.k', floor=1)
+def c18k(ctx):
+    """no request parameter can start a new header line: every header value that is handed to start_response went through a
+    filter that removes CR and LF (content types are built from FORMAT / INFO_FORMAT values of unvalidated requests)"""
+    from ..flow import Canon
+    fn = ctx.fn('mapproxy/response.py:Response.fixed_headers')
+    cf = Canon(fn)
+    apps = [x for x in fn.walk() if isinstance(x, ast.Call) and isinstance(x.func, ast.Attribute) and x.func.attr == 'append' and x.args]
+    if not apps:
+        raise Undecided('Response.fixed_headers: no append')
+    for x in apps:
+        t = x.args[0]
+        val = t.elts[1] if isinstance(t, ast.Tuple) and len(t.elts) == 2 else t
+        form = cf.expr(val)
+        ok = _removes_chars(fn, form, [0x0a, 0x0d], ctx)
+        ctx.check(ok, 'Response.fixed_headers:no-line-breaks-in-values', 'header values are filtered (no CR / LF) before they are emitted', fn, x,
+                  fail='header values are emitted as they are: a CR/LF in INFO_FORMAT (empty GetFeatureInfo result) or FORMAT (in-image exception) '
+                       'injects a header line into the response')
+    call = ctx.fn('mapproxy/response.py:Response.__call__')
+    ok = any(is_call(x, 'start_response') and len(x.args) >= 2 and unparse(x.args[1]) == 'self.fixed_headers' for x in call.walk())
+    ctx.check(ok, 'Response.__call__:emits-fixed-headers', 'start_response receives the filtered header list', call)
+
+
+@rule('C18.l', floor=1)
+def c18l(ctx):
+    """an image answer declares the type it is encoded in: the in-image exception handler (rendered for requests that did not pass
+    validation) derives the content type from the image options the image is created with, not from the raw FORMAT parameter"""
+    fn = ctx.fn('mapproxy/request/wms/exception.py:WMSImageExceptionHandler.render')
+    defs = Defs(fn.node)
+    from ..flow import Canon
+    cf = Canon(fn)
+    resp = [x for x in fn.walk() if is_call(x, 'Response')]
+    mi = [x for x in fn.walk() if is_call(x, 'message_image')]
+    if not resp or not mi:
+        raise Undecided('WMSImageExceptionHandler.render: Response / message_image not found')
+    opts = keyword(mi[0], 'image_opts', 2)
+    for x in resp:
+        ct = keyword(x, 'content_type', 2) or keyword(x, 'mimetype', 3)
+        form = cf.expr(ct) if ct is not None else None
+        raw = form is not None and contains(form, lambda y: isinstance(y, ast.Attribute) and y.attr in ('format_mime_type',)) or \
+            (form is not None and contains(form, lambda y: is_call(y, 'get') and y.args and const_value(y.args[0], None) == 'format'))
+        from_opts = ct is not None and opts is not None and depends(ct, lambda y: isinstance(y, ast.Name) and unparse(y) == unparse(opts), defs)
+        ctx.check(bool(from_opts) and not raw, 'WMSImageExceptionHandler.render:declares-encoded-format',
+                  'the content type is computed from the image options the error image is encoded with', fn, x,
+                  fail='the content type of an in-image exception is the raw FORMAT parameter of the (unvalidated) request: "PNG" for WMS 1.0.0, '
+                       'arbitrary trailing text otherwise')
